@@ -259,7 +259,7 @@ func visitInstr(fr *frame, instr ssa.Instruction) continuation {
 	case *ssa.If:
 		succ := 1
 		c := fr.get(instr.Cond)
-		if _, sym := c.(symv); sym {
+		if sc, sym := c.(symv); sym && !(i.pm.concrete == nil && (i.pm.pcSet[sc.t] || i.pm.pcSet["(not "+sc.t+")"])) {
 			if fr.symVisits == nil {
 				fr.symVisits = map[*ssa.BasicBlock]int{}
 			}
